@@ -143,6 +143,10 @@ func verifyFunc(p *Program, c *FuncContract) (res *FuncResult) {
 	if msg := p.missingCallSites(c, fn); msg != "" {
 		ex.obls = append(ex.obls, &Obligation{Name: c.Name + "/shape:call-site-exists:" + strings.Fields(strings.TrimPrefix(msg, "call clause for "))[0], Func: c.Name, Kind: "shape", PC: ex.tb.True, Claim: ex.tb.False, Entry: ex.entry, Detail: msg})
 	}
+	// likewise every at-clause must name an instruction of that kind (and ordinal) that exists
+	for _, what := range p.missingAtSites(c, fn) {
+		ex.obls = append(ex.obls, &Obligation{Name: c.Name + "/shape:at-site-exists:" + what, Func: c.Name, Kind: "shape", PC: ex.tb.True, Claim: ex.tb.False, Entry: ex.entry, Detail: "at " + what + ": no such instruction in the function any more"})
+	}
 	ex.oldState = st.clone()
 	ex.execBody(fr, st)
 	// postconditions at every return
@@ -357,4 +361,58 @@ func (p *Program) missingCallSites(c *FuncContract, fn *ssa.Function) string {
 		}
 	}
 	return ""
+}
+
+
+// missingAtSites lists the at-clauses (at KIND[#k] requires / set) without a matching instruction.
+func (p *Program) missingAtSites(c *FuncContract, fn *ssa.Function) []string {
+	keys := map[string]bool{}
+	for k, v := range c.At {
+		if len(v) > 0 {
+			keys[k] = true
+		}
+	}
+	for k, v := range c.AtSets {
+		if len(v) > 0 {
+			keys[k] = true
+		}
+	}
+	var fns []*ssa.Function
+	var walk func(f *ssa.Function)
+	walk = func(f *ssa.Function) {
+		fns = append(fns, f)
+		for _, a := range f.AnonFuncs {
+			if p.contractFor(a) == nil {
+				walk(a)
+			}
+		}
+	}
+	walk(fn)
+	var missing []string
+	for k := range keys {
+		kind, ord := k, -1
+		if i := strings.Index(k, "#"); i >= 0 {
+			kind = k[:i]
+			fmt.Sscanf(k[i+1:], "%d", &ord)
+		}
+		found := false
+		for _, f := range fns {
+			n := 0
+			for _, b := range f.Blocks {
+				for _, in := range b.Instrs {
+					if kindMatches(in, kind) {
+						n++
+					}
+				}
+			}
+			if (ord < 0 && n > 0) || (ord >= 0 && n > ord) {
+				found = true
+			}
+		}
+		if !found {
+			missing = append(missing, k)
+		}
+	}
+	sort.Strings(missing)
+	return missing
 }
